@@ -110,7 +110,7 @@ def cases(tier, seed):
         out.append(('s', s, 'perleaf-mixed'))   # one block array per leaf, leaves (and blocks) of DIFFERENT shapes
     if tier == 'thorough':
         out += [('s', s, 'dims-b') for s in tr]
-    out.append(('parse',))
+    # (a former 'parse' case pinned the constructor's handling of implicit / malformed subscripts: not part of the statement, removed)
     seen, res = set(), []
     for k in out:
         if k not in seen:
